@@ -821,11 +821,14 @@ Definition int_vars (AF : list (fkind * fdef)) : list ident :=
 (* level <= 5, or the condition *)
 Definition at6 (lv : nat) (b : bool) : bool := Nat.leb lv 5 || b.
 
-Definition run_ok (FS : fsigs) (TL : list ident) (AF : list (fkind * fdef)) (self : option ident) (sc : list ident) (fds : list fdef) : bool :=
+Definition run_ok (FS : fsigs) (TL : list ident) (AF : list (fkind * fdef)) (self : option ident) (cpok : bool) (sc : list ident) (fds : list fdef) : bool :=
   let names := map fd_name fds in
   nodup_ids names &&
   forallb (fun x => negb (is_fname FS x) && negb (mem_id x sc) && negb (self_is self x)) names &&
-  forallb (fun fd => known AF KNamed fd && forallb (fun y => mem_id y (names ++ sc)) (fvs_fd TL fd)) fds.
+  forallb (fun fd => known AF KNamed fd &&
+                     forallb (fun y => mem_id y (names ++ sc) || (cpok && self_is self y)) (fvs_fd TL fd)) fds.
+(* cpok (level 6): a function of the run may mention the running named nested function (captured by COPYGLOB;
+   ID_FUNC_ADDR, a copy) *)
 
 Definition items_F_f (FS : fsigs) (TL : list ident) (AF : list (fkind * fdef)) (self : option ident) (lv : nat) (fexpr : list ident -> expr -> bool) :=
   fix go (sc : list ident) (pend : nat) (l : list item) {struct l} : bool :=
@@ -841,7 +844,7 @@ Definition items_F_f (FS : fsigs) (TL : list ident) (AF : list (fkind * fdef)) (
   | IFunc fd :: t =>
       match pend with
       | O => let fds := fd :: run_funcs t in
-             Nat.leb 4 lv && (run_ok FS TL AF self sc fds &&
+             Nat.leb 4 lv && (run_ok FS TL AF self (Nat.leb 6 lv) sc fds &&
                               at6 lv (forallb (fun g => negb (mem_id (fd_name g) (int_vars AF))) fds)) &&
              go (map fd_name fds ++ sc) (length (run_funcs t)) t
       | S p => go sc p t
@@ -882,7 +885,8 @@ Fixpoint in_F (FS : fsigs) (TL : list ident) (AF : list (fkind * fdef)) (self : 
                   end
       | _ => Nat.leb 4 lv && in_F FS TL AF self lv sc f            (* any expression that yields a function value *)
       end
-  | ELambda fd => Nat.leb 4 lv && known AF KLam fd && forallb (fun y => mem_id y sc) (fvs_fd TL fd)
+  | ELambda fd => Nat.leb 4 lv && known AF KLam fd &&
+                  forallb (fun y => mem_id y sc || (Nat.leb 6 lv && self_is self y)) (fvs_fd TL fd)
   | _ => false
   end.
 
@@ -903,6 +907,7 @@ Definition func_in_P (FS : fsigs) (TL : list ident) (AF : list (fkind * fdef)) (
   negb (mem_id (fd_name (snd kf)) (param_names (fd_params (snd kf)))) &&
   forallb (fun x => negb (is_fname FS x)) (param_names (fd_params (snd kf))) &&
   at6 lv (forallb (fun x => negb (mem_id x (int_vars AF))) (param_names (fd_params (snd kf)))) &&
+  at6 lv (negb (mem_id (fd_name (snd kf)) (int_vars AF))) &&
   (no_catch (snd kf) ||
    (forallb (fun c => items_F FS TL AF (fc_self (ctx_of TL (fst kf) (snd kf))) lv (body_scope TL (fst kf) (snd kf)) (snd c))
             (fd_catches (snd kf)) &&
